@@ -282,6 +282,7 @@ type Method struct {
 	Notations []string // notation lines without the leading "// "
 	DocLines  []string // non-notation doc lines
 	Features  []string
+	RawSig    string // when set, printed instead of the signature derived from the fields above
 }
 
 type Arg struct{ Name, Type string }
@@ -326,6 +327,7 @@ type Options struct {
 	ExtraDecls      bool    // surround interfaces with other declarations and comments
 	Toggles         bool
 	NoUnsupportedRe bool
+	WellFormed      bool // only notations that are valid and name functions of an acceptable shape
 }
 
 // DefaultOptions is the general-purpose mix.
@@ -552,12 +554,14 @@ func (g *genState) genMethod(idx int) Method {
 			m.Features = append(m.Features, "map")
 		case 3:
 			convs := []string{"ext.Itoa", "ext.Atoi", "strconv.Itoa", "localConv", "localConvErr", "localPtrConv", "ext.lower", "ext.Two", "ext.NoResult", "ext.FuncVar", "ext.NotFunc", "nosuch", "ext.Three", "ext.PtrLen", "ext.StatusOf"}
+			if g.opt.WellFormed {
+				convs = []string{"ext.Itoa", "ext.Atoi", "strconv.Itoa", "localConv", "localConvErr", "localPtrConv", "ext.PtrLen", "ext.StatusOf"}
+			}
 			srcs := []string{"SpareInt", "SpareStr", "Calc()", path, "NestV.A", "Nest.B"}
 			m.Notations = append(m.Notations, ":conv "+g.pick(convs)+" "+g.pick(srcs)+" "+path)
 			m.Features = append(m.Features, "conv")
 		case 4:
-			lits := []string{`"lit"`, "42", "nil", "true", `ext.Status("x")`, "Leaf{}", "1 + 2", "[]string{}"}
-			m.Notations = append(m.Notations, ":literal "+path+" "+g.pick(lits))
+			m.Notations = append(m.Notations, ":literal "+path+" "+literalFor(g.rng, f.Type))
 			m.Features = append(m.Features, "literal")
 		case 5:
 			if len(m.Args) > 0 {
@@ -605,6 +609,27 @@ func (g *genState) genMethod(idx int) Method {
 	return m
 }
 
+// literalFor returns an expression of the given type (the tool cannot check literals).
+func literalFor(rng *rand.Rand, typ string) string {
+	switch typ {
+	case "int", "int64", "MyInt", "Status", "ext2.Status", "float64":
+		return []string{"42", "1 + 2", "7"}[rng.Intn(3)]
+	case "string", "ext.Status":
+		return []string{`"lit"`, `"a b  c"`, `"x" + "y"`}[rng.Intn(3)]
+	case "bool":
+		return "true"
+	case "Leaf":
+		return "Leaf{V: 1}"
+	case "interface{}":
+		return `"any"`
+	}
+	switch {
+	case strings.HasPrefix(typ, "*"), strings.HasPrefix(typ, "[]"), strings.HasPrefix(typ, "map["), strings.HasPrefix(typ, "func"), strings.HasPrefix(typ, "chan"), strings.HasPrefix(typ, "<-chan"), typ == "error", typ == "Namer", typ == "IntList":
+		return "nil"
+	}
+	return "*new(" + typ + ")"
+}
+
 // hook declares a hook function for the method and returns the notation line.
 func (g *genState) hook(m *Method, kind string) string {
 	g.nFuncs++
@@ -619,6 +644,9 @@ func (g *genState) hook(m *Method, kind string) string {
 	}
 	params := []string{"d " + dt, "s " + st}
 	shape := g.rng.Intn(10)
+	if g.opt.WellFormed {
+		shape = 9
+	}
 	withArgs := len(m.Args) > 0 && g.rng.Intn(2) == 0
 	if withArgs {
 		for i, a := range m.Args {
@@ -628,7 +656,7 @@ func (g *genState) hook(m *Method, kind string) string {
 	}
 	res := ""
 	body := ""
-	if g.rng.Intn(3) == 0 {
+	if g.rng.Intn(3) == 0 && (!g.opt.WellFormed || m.RetErr) {
 		res = " error"
 		body = "return nil"
 		g.feat("hook-error")
@@ -655,6 +683,9 @@ func (g *genState) hook(m *Method, kind string) string {
 }
 
 func (m Method) signature() string {
+	if m.RawSig != "" {
+		return m.RawSig
+	}
 	st, dt := m.SrcType, m.DstType
 	if m.SrcPtr {
 		st = "*" + st
@@ -733,6 +764,9 @@ func Generate(seed int64, index int, opt Options) *Case {
 			it.Methods = append(it.Methods, g.genMethod(mi))
 		}
 		c.Interfaces = append(c.Interfaces, it)
+	}
+	if opt.Malformed > 0 {
+		g.malform()
 	}
 	c.SetupPath = "pk/setup.go"
 	c.Files["ext/ext.go"] = ExtSrc
@@ -832,4 +866,85 @@ func (c *Case) FeatureList() []string {
 	}
 	sort.Strings(ks)
 	return ks
+}
+
+var malformedNotations = []string{
+	":skip", ":map A", ":map", ":conv", ":conv f", ":conv nosuch A", ":literal X", ":literal", ":literal X\u00a0Y", ":literal X\u00a0Y Z",
+	":style", ":style bogus", ":match", ":match tag", ":match bogus", ":recv", ":recv 1x", ":recv _", ":recv a-b", ":recv É", ":reverse",
+	":unknown foo", ":tag json", ":conv:type x", ":conv:with y", ":skip /(/", ":skip /a**/", ":skip /\\pL/", ":skip /\\Z/", ":skip /\\Q/",
+	":preprocess", ":preprocess nosuch", ":postprocess ext.NotFunc", ":preprocess ext.NoResult", ":postprocess len", ":postprocess error",
+	":preprocess ext.Itoa", ":postprocess ext.Two", ":preprocess strconv", ":postprocess ext.nosuch", ":preprocess nosuch.F", ":postprocess ext.Three",
+	":conv error X", ":conv len X", ":conv ext X", ":conv ext.NotFunc X", ":conv ext.Three X", ":conv ext.NoResult X", ":conv ext.Two X", ":conv a.b.c X",
+	":map $x A", ":map $0 A", ":map $99999999999999999999 A", ":map $-1 A", ":map $+1 A", ":map $ A", ":map $1. A", ":map .. A", ":map A. B", ":map () X", ":map A() X",
+	":skip \xff\xfe", ":map \xff X", ":literal X \xff", ":convergen", ":case:on", ":getter:on", ":typecast:maybe", ":", ": skip X", ":skip\tX", ":skip  X  extra",
+	":skip " + strings.Repeat("A", 300), ":style arg extra", ":style\u00a0arg", ":reverse now",
+}
+
+var oddSignatures = []string{
+	"%s() *%s", "%s(*%s)", "%s(int) string", "%s(**%s) *%s", "%s(s *%s) (d **%s)", "%s(Namer) *%s", "%s(*%s) Namer", "%s([]%s) []%s",
+	"%s(*Nope) *%s", "%s(*%s) *Nope", "%s(*%s, Nope) *%s", "%s(*%s) (*%s, int)", "%s(*%s) (error)", "%s(s, t *%s) *%s", "%s(*%s) (*%s, error, error)",
+	"%s(map[string]%s) *%s", "%s(*%s) error", "%s(ext.Person) *%s", "%s(*%s) ext.Pub2", "%s(*%s, ...int) *%s", "%s(*%s, error) *%s",
+}
+
+// malform mutates the generated interfaces towards rejected / ill-formed input.
+func (g *genState) malform() {
+	rng := g.rng
+	for ii := range g.c.Interfaces {
+		it := &g.c.Interfaces[ii]
+		if rng.Float64() < g.opt.Malformed/6 {
+			it.Notations = append(it.Notations, g.pick(malformedNotations))
+			it.NoDoc = false
+			g.feat("malformed-intf-notation")
+		}
+		for mi := range it.Methods {
+			m := &it.Methods[mi]
+			if rng.Float64() < g.opt.Malformed {
+				n := 1 + rng.Intn(2)
+				for k := 0; k < n; k++ {
+					line := g.pick(malformedNotations)
+					pos := rng.Intn(len(m.Notations) + 1)
+					m.Notations = append(m.Notations[:pos], append([]string{line}, m.Notations[pos:]...)...)
+				}
+				g.feat("malformed-notation")
+				// the two-step recipes for the stateful matcher
+				if rng.Intn(6) == 0 {
+					m.Notations = append(m.Notations, ":skip /\\pL/", ":case:off")
+					g.feat("skip-then-case-off")
+				}
+				if rng.Intn(6) == 0 {
+					m.Notations = append(m.Notations, ":case:off", ":skip /\\Z/", ":case")
+					g.feat("case-off-skip-case")
+				}
+			}
+			if rng.Float64() < g.opt.Malformed/4 {
+				f := g.pick(oddSignatures)
+				nargs := strings.Count(f, "%s")
+				args := []any{m.Name}
+				for k := 1; k < nargs; k++ {
+					if k%2 == 1 {
+						args = append(args, m.SrcType)
+					} else {
+						args = append(args, m.DstType)
+					}
+				}
+				m.RawSig = fmt.Sprintf(f, args...)
+				g.feat("odd-signature")
+			}
+		}
+	}
+	if rng.Float64() < g.opt.Malformed/8 {
+		for ii := range g.c.Interfaces {
+			g.c.Interfaces[ii].Name = "Plain" + g.c.Interfaces[ii].Name
+			g.c.Interfaces[ii].Marked = false
+		}
+		g.feat("no-converter-interface")
+	}
+}
+
+// GenerateMalformed is Generate with the malformed stream switched on.
+func GenerateMalformed(seed int64, index int, opt Options) *Case {
+	if opt.Malformed == 0 {
+		opt.Malformed = 0.5
+	}
+	return Generate(seed, index, opt)
 }
